@@ -621,6 +621,11 @@ fn append_instruction(ctx: &mut ValidationContext, inst: Operator, loc: InstrLoc
                                 )
                                 .unwrap();
                             ctx.pop_control().unwrap();
+                            // This `end` closes the synthesized (empty) `else`
+                            // arm; the consequent has no `else` instruction
+                            // in the input that its end could be mapped from.
+                            ctx.func.block_mut(alternative).end = loc;
+                            ctx.func.block_mut(block).end = InstrLocId::default();
                             alternative
                         }
                     };
